@@ -83,6 +83,10 @@ func (rc *recipe) S(i int) *big.Int {
 	case "collide":
 		k := int(rc.A.Int64())
 		return rc.mod(new(big.Int).Mul(big.NewInt(int64(i%k+1)), rc.D))
+	case "top":
+		// (i mod C) + 1 in the top window only (D = 2^(start of the last window)): the last chunk carries all the work and
+		// its digits run through the whole range of the (possibly wider) last window
+		return rc.mod(new(big.Int).Mul(big.NewInt(int64(i%int(rc.C.Int64())+1)), rc.D))
 	}
 	return lin
 }
@@ -249,7 +253,7 @@ func runC04(args []string) {
 	if *only != "" {
 		names = strings.Split(*only, ",")
 	}
-	pats := []string{"lin", "same", "pm", "inf", "zero", "max", "onehot", "few", "small"}
+	pats := []string{"lin", "same", "pm", "inf", "zero", "max", "onehot", "few", "small", "top"}
 	total := 0
 	for _, name := range names {
 		c := curves[name]
@@ -286,6 +290,21 @@ func runC04(args []string) {
 						d.SetBit(d, j, 1)
 					}
 					rc.D = d
+				}
+				if pat == "top" {
+					if cwin == 0 {
+						cwin = 11
+					}
+					nb := (rq.BitLen() + cwin - 1) / cwin // number of windows
+					d := new(big.Int).Lsh(big.NewInt(1), uint(cwin*(nb-1)))
+					tmax := new(big.Int).Div(new(big.Int).Sub(rq, big.NewInt(1)), d)
+					if tmax.Cmp(big.NewInt(3000)) > 0 {
+						tmax = big.NewInt(3000)
+					}
+					if tmax.Sign() == 0 {
+						tmax = big.NewInt(1)
+					}
+					rc.C, rc.D = tmax, d
 				}
 				if pat == "few" {
 					// repunit with period cwin: every window of every scalar hits one of three buckets
@@ -360,7 +379,7 @@ func runC04(args []string) {
 					continue
 				}
 				// "small" puts all the work into the first window: an overweight chunk, split over two goroutines (c >= 10)
-				for _, pat := range []string{"lin", "few", "onehot", "pm", "inf", "collide", "same", "small"} {
+				for _, pat := range []string{"lin", "few", "onehot", "pm", "inf", "collide", "same", "small", "top"} {
 					if msmHangs >= 3 {
 						break
 					}
@@ -371,7 +390,7 @@ func runC04(args []string) {
 					if gn == "G2" && !full {
 						n = n / 3
 					}
-					if !full && pat != "lin" && pat != "few" && pat != "collide" && pat != "small" {
+					if !full && pat != "lin" && pat != "few" && pat != "collide" && pat != "small" && pat != "top" {
 						continue
 					}
 					if pat == "small" || ci%2 == 1 {
